@@ -197,7 +197,19 @@ func c09SpecLevel(c *core.Ctx) {
 	full := *head
 	x, y := head.Args[0], head.Args[len(head.Args)-1]
 	var tailSpec *Node
-	switch pi % 6 {
+	switch pi % 8 {
+	case 6:
+		// (X -- Y...) | (-- Y...): each alternative has a -- of its own (what the parser remembers about the first one
+		// must not leak into the second)
+		// (| binds tighter than juxtaposition: every alternative is a parenthesised group)
+		tailSpec = &Node{K: KChoice, Kids: []*Node{
+			{K: KGroup, Kids: []*Node{{K: KSeq, Kids: []*Node{{K: KArg, Arg: x}, {K: KDD}, {K: KRep, Kids: []*Node{{K: KArg, Arg: y}}}}}}},
+			{K: KGroup, Kids: []*Node{{K: KSeq, Kids: []*Node{{K: KDD}, {K: KRep, Kids: []*Node{{K: KArg, Arg: y}}}}}}}}}
+	case 7:
+		// (-- X) | (Y -- X...)
+		tailSpec = &Node{K: KChoice, Kids: []*Node{
+			{K: KGroup, Kids: []*Node{{K: KSeq, Kids: []*Node{{K: KDD}, {K: KArg, Arg: x}}}}},
+			{K: KGroup, Kids: []*Node{{K: KSeq, Kids: []*Node{{K: KArg, Arg: y}, {K: KDD}, {K: KRep, Kids: []*Node{{K: KArg, Arg: x}}}}}}}}}
 	case 4:
 		// (X | (-- Y)) X... : the spec-level -- sits in one branch of a choice that rejoins on a repeated argument
 		tailSpec = &Node{K: KSeq, Kids: []*Node{{K: KChoice, Kids: []*Node{{K: KArg, Arg: x}, {K: KGroup, Kids: []*Node{{K: KSeq, Kids: []*Node{{K: KDD}, {K: KArg, Arg: y}}}}}}}, {K: KRep, Kids: []*Node{{K: KArg, Arg: x}}}}}
